@@ -332,7 +332,9 @@ def _ssc_chart_items(draw, as_template):
     items = [p for p in _dedup(items) if p[0] not in ("NOTES", "NOTES2", "NOTEDATA")]
     has_notes = draw(st.integers(0, 3)) > 0 if as_template else True
     if has_notes:
-        nk = "NOTES" if as_template or draw(st.integers(0, 3)) > 0 else "NOTES2"
+        # a chart template may spell its note data NOTES2: the converted chart then holds the template's NOTES2 and, last,
+        # the source's NOTES (which is what the notes property and every reader use)
+        nk = "NOTES" if draw(st.integers(0, 3)) > 0 else "NOTES2"
         items.append([nk, draw(G.notedata())])
     return items
 
@@ -363,7 +365,9 @@ def s_convert(draw, negative=False):
                     rows = ["4.000=1.000"]
                 i = draw(st.integers(0, len(rows) - 1))
                 b, _, v = rows[i].partition("=")
-                rows[i] = b + "=-" + (v if Decimal(v) != 0 else "0.001")
+                # the library's reader accepts blanks around the numbers ("4.000= -60.000"): still a negative value
+                eq = draw(st.sampled_from(["=", "=", "= ", " = ", " =", "=\t"]))
+                rows[i] = b + eq + "-" + (v if Decimal(v) != 0 else "0.001")
                 if draw(st.integers(0, 2)) == 0:
                     # the negative entry is followed by another entry on the very same beat (or a beat rounding to the
                     # same tick): the list still includes a negative value
